@@ -58,6 +58,8 @@ impl ClientCfg {
 pub struct SimCfg {
     pub name: String,
     pub dt_ms: u64,
+    /// server uptime (and token creation time) in seconds when the scenario starts
+    pub epoch_s: u64,
     /// deviations are offered in ticks fault_from..horizon
     pub fault_from: u32,
     pub horizon: u32,
@@ -81,6 +83,8 @@ pub struct SimCfg {
     pub c2s_blackout_until: u32,
     /// lossy baseline: every client -> server datagram emitted in ticks [from, until) is lost
     pub c2s_blackout_window: Option<(u32, u32)>,
+    /// lossy baseline: every server -> client datagram emitted in ticks [from, until) is lost
+    pub s2c_blackout_window: Option<(u32, u32)>,
     /// attacker injections towards client 0 as decision points (replays of the server's handshake replies)
     pub inject_to_client: bool,
 }
@@ -90,6 +94,7 @@ impl SimCfg {
         SimCfg {
             name: name.to_string(),
             dt_ms: 250,
+            epoch_s: 0,
             fault_from: 0,
             horizon: 6,
             tail: 12,
@@ -106,6 +111,7 @@ impl SimCfg {
             room_guaranteed: false,
             c2s_blackout_until: 0,
             c2s_blackout_window: None,
+            s2c_blackout_window: None,
             inject_to_client: false,
         }
     }
@@ -113,7 +119,8 @@ impl SimCfg {
         let c = &self.clients[i];
         let mut s = TokenSpec::new(c.id, 10 + i as u8, c.addr_list.iter().map(|&a| self.server_addrs[a]).collect());
         s.timeout = c.timeout;
-        s.expire = c.expire;
+        s.create = self.epoch_s;
+        s.expire = self.epoch_s + c.expire;
         make_token(&s)
     }
 }
@@ -218,7 +225,7 @@ pub const NET_FLAG_NAMES: [&str; 6] = [
 impl<'c> Sim<'c> {
     pub fn new(cfg: &'c SimCfg) -> Self {
         let public: Vec<SocketAddr> = cfg.server_addrs.clone();
-        let server = new_server(cfg.max_clients, public, Duration::ZERO);
+        let server = new_server(cfg.max_clients, public, Duration::from_secs(cfg.epoch_s));
         let tokens = (0..cfg.clients.len()).map(|i| cfg.token_for(i)).collect();
         Sim {
             cfg,
@@ -226,7 +233,7 @@ impl<'c> Sim<'c> {
             clients: vec![None; cfg.clients.len()],
             tokens,
             tick: 0,
-            now_ms: 0,
+            now_ms: cfg.epoch_s * 1000,
             dgs: vec![],
             c2s: vec![],
             s2c: vec![],
@@ -313,6 +320,9 @@ impl<'c> Sim<'c> {
         ctx.note(|| format!("t{} server -> {}: #{} {}", self.tick, to, d, self.describe(d)));
         probe.on_emit(self, d)?;
         if self.cfg.server_silent_from.map(|t| self.tick >= t).unwrap_or(false) {
+            return Ok(());
+        }
+        if self.cfg.s2c_blackout_window.map(|(a, b)| self.tick >= a && self.tick < b).unwrap_or(false) {
             return Ok(());
         }
         self.fate(ctx, d, false);
